@@ -127,6 +127,22 @@ Theorem C06_bucket_ops_durable_state : forall lazy s o tro,
 Proof. exact bucket_ops_durable_state. Qed.
 Print Assumptions C06_bucket_ops_durable_state.
 
+(* The eager store (enable_lazy_commit = False): every completed call is durable - after
+   any history a reopen finds exactly what the connection reads, and so after every call
+   issued in such a state. *)
+Theorem C06_eager_store_completed_durable : forall d0 t0 h tr,
+  map fst tr = hist_script d0 h ->
+  let s := cr_run false (cr_init d0 t0) tr in
+  reopen s = live s /\ live s = hist_live d0 h.
+Proof. exact eager_history_durable. Qed.
+Print Assumptions C06_eager_store_completed_durable.
+
+Theorem C06_eager_store_call_durable : forall s o tro,
+  durable s = live s -> map fst tro = sscript (live s) o ->
+  reopen (cr_run false s tro) = live (cr_run false s tro).
+Proof. exact eager_call_durable. Qed.
+Print Assumptions C06_eager_store_call_durable.
+
 (* What the process itself observes is the store model of Model/SqliteStore.v: a call
    moves the connection's view exactly as [sq_step] and returns what [sq_step] returns,
    whatever the commit bookkeeping does - so the theorems of Props/C02.v, C04.v, C05.v
